@@ -289,4 +289,53 @@ def pathSep (o : PO) : Str :=
 /-- the value of `COMPOSE_DISABLE_ENV_FILE` in the OS environment, as `WithEnvFiles()` reads it -/
 def disableVar (w : World) : Option Str := (asEqualsMap w.os).get disableKey
 
+/-! `strings.Split` with a one-character separator is the inverse of joining parts that do not contain it -/
+
+theorem indexOfGo_single_none (c : Char) (p : Str) (i : Nat) (h : c ∉ p) : indexOfGo [c] p i = none := by
+  induction p generalizing i with
+  | nil => simp [indexOfGo]
+  | cons d ds ih =>
+    simp only [List.mem_cons, not_or] at h
+    have hd : (c == d) = false := by simpa using h.1
+    simp [indexOfGo, List.isPrefixOf, hd, ih (i + 1) h.2]
+
+theorem indexOfGo_single_some (c : Char) (p rest : Str) (i : Nat) (h : c ∉ p) :
+    indexOfGo [c] (p ++ c :: rest) i = some (i + p.length) := by
+  induction p generalizing i with
+  | nil => simp [indexOfGo, List.isPrefixOf]
+  | cons d ds ih =>
+    simp only [List.mem_cons, not_or] at h
+    have hd : (c == d) = false := by simpa using h.1
+    simp only [List.cons_append, indexOfGo, List.isPrefixOf, hd, Bool.false_and, Bool.false_eq_true, if_false]
+    rw [ih (i + 1) h.2]
+    simp; omega
+
+def joinWith (c : Char) : List Str → Str
+  | [] => []
+  | [p] => p
+  | p :: ps => p ++ c :: joinWith c ps
+
+theorem splitOnFuel_join (c : Char) (parts : List Str) (hne : parts ≠ []) (h : ∀ p ∈ parts, c ∉ p)
+    (fuel : Nat) (hf : parts.length ≤ fuel + 1) :
+    splitOnFuel [c] fuel (joinWith c parts) = parts := by
+  induction parts generalizing fuel with
+  | nil => exact absurd rfl hne
+  | cons p ps ih =>
+    cases ps with
+    | nil =>
+      have hp := h p List.mem_cons_self
+      cases fuel with
+      | zero => rfl
+      | succ n => simp [splitOnFuel, joinWith, indexOf, indexOfGo_single_none c p 0 hp]
+    | cons q qs =>
+      have hp := h p List.mem_cons_self
+      cases fuel with
+      | zero => simp at hf
+      | succ n =>
+        have hi : indexOf [c] (p ++ c :: joinWith c (q :: qs)) = some p.length := by
+          simp [indexOf, indexOfGo_single_some c p _ 0 hp]
+        simp only [joinWith, splitOnFuel, hi]
+        have hrest := ih (List.cons_ne_nil _ _) (fun x hx => h x (List.mem_cons_of_mem _ hx)) n (by simp at hf ⊢; omega)
+        simp [List.take_left', List.drop_append_of_le_length, hrest]
+
 end CV.Name
